@@ -734,7 +734,8 @@ Depth3 ==
     \o [i \in 1 .. NS |-> Tup(<<AB(Tup(<<Sm(i), Sm(i + 1)>>), Sm(i + 2), <<"a", "b">>), Arr(Sm(i + 3), 0, 2)>>)]
     \o [i \in 1 .. NS |-> Stc(<<M("s", Arr(AB(Sm(i), Sm(i + 1), <<"b">>), 0, 2)), M("k", Sm(i + 2))>>, <<>>)]
 
-TypeSeq(tier) == CASE tier = "mc" -> Leaves \o SubSeq(Depth1, 1, 2 * NL)
+
+BaseSeq(tier) == CASE tier = "mc" -> Leaves \o SubSeq(Depth1, 1, 2 * NL)
                    [] tier = "quick" -> Leaves \o Depth1 \o Depth2
                    [] tier = "thorough" -> Leaves \o Depth1 \o Depth2 \o AllPairs \o Depth3
 
@@ -762,9 +763,16 @@ CContainers ==
          Tup(<<CSmall[3]>>), Tup(<<CSmall[3], CSmall[8], CSmall[6]>>), Arr(Arr(CSmall[3], 0, 2), 0, 2), Arr(Arr(CSmall[4], 0, 2), 0, 3)>>
 CTypes(tier) == IF tier = "thorough" THEN CLeaves \o CContainers \o Depth2 ELSE CLeaves \o CContainers
 (* types whose description / rebuild / copy is examined: the C01 catalogue with presentation properties *)
-ETypes(tier) == LET base == TypeSeq(IF tier = "thorough" THEN "quick" ELSE "quick") IN
+ETypes(tier) == LET base == BaseSeq(tier) IN
     [i \in 1 .. Len(base) |-> Deco(base[i], IF i % 3 = 0 THEN "" ELSE IF i % 3 = 1 THEN "K" ELSE "$/min",
                                             IF i % 2 = 0 THEN "%g" ELSE "%.3f", i % 4 < 2)]
+
+(* the catalogue a configuration walks through: C01/C02 type trees, C03 pair types ("c-"), C03 decorated types ("e-") *)
+TypeSeq(tier) == CASE tier \in {"mc", "quick", "thorough"} -> BaseSeq(tier)
+                   [] tier = "c-quick" -> CTypes("quick")
+                   [] tier = "c-thorough" -> CTypes("thorough")
+                   [] tier = "e-quick" -> ETypes("quick")
+                   [] tier = "e-thorough" -> ETypes("thorough")
 
 (* ------------------------------------------------------- the model's own laws *)
 (* One TLC state per datatype; the laws quantify over all its cases.             *)
@@ -803,6 +811,10 @@ Idempotent == IdempotentR(dt, CaseRecs(dt))
 PrevFree == PrevFreeR(dt, CaseRecs(dt))
 NonVacuous == NonVacuousR(dt, CaseRecs(dt))
 RoundTrip == RoundTripLaw(dt) /\ VS(dt) # {}
+(* every type is compatible with itself, and compatibility by meaning is transitive on the catalogue *)
+CompatSane == /\ Subset(dt, dt) /\ Supported(dt, dt) /\ AllowedPass(dt, dt) = {TRUE}
+              /\ \A i, j \in 1 .. Len(TypeSeq(Tier)) :
+                    (Subset(dt, TypeSeq(Tier)[i]) /\ Subset(TypeSeq(Tier)[i], TypeSeq(Tier)[j])) => Subset(dt, TypeSeq(Tier)[j])
 DescribeRebuild == DescribeLaw(Deco(dt, "K", "%.3f", TRUE)) /\ DescribeLaw(Deco(dt, "$", "%g", FALSE))
 AllLaws(d, R) == TotalR(d, R) /\ SoundR(d, R) /\ IdempotentR(d, R) /\ PrevFreeR(d, R) /\ NonVacuousR(d, R)
 =============================================================================
